@@ -3,6 +3,7 @@ import numpy as np
 
 from .. import gen, install, loops
 from ..common import EPS, LINKAGES, pick, shard_count
+from . import c18
 
 LD = np.longdouble
 
@@ -18,7 +19,7 @@ META = {
     'scale': {'quick': 1, 'thorough': 450},
     'quick_cases': 15000, 'thorough_cases': 2400000,
     'assumptions': ['clusters are recomputed with the library\'s own linkage functions (C11 decides those)',
-                    'the lower hull is recomputed with the saved graham_scan_lower (C18 decides it)',
+                    'the lower hull is recomputed with the saved graham_scan_lower, and that result is checked against the hull definition with the chain monitor of C18',
                     'fit of a window with <= 2 points or constant y is 1 (a horizontal line fits exactly)'],
 }
 
@@ -139,7 +140,9 @@ def setup(ctx, mods):
                 if float(scores.max()) - float(scores.min()) > 1e-12:
                     STATE['nontrivial'] = True
         else:
-            hull = set(int(v) for v in install.orig('convex_hull', 'graham_scan_lower')(pts))
+            lib_hull = install.orig('convex_hull', 'graham_scan_lower')(pts)
+            c18.check_chain(ctx, 'lower', pts, lib_hull)      # the shared hull primitive against the hull's definition
+            hull = set(int(v) for v in lib_hull)
             bad = [c for c, ch in chosen.items() if len(ch) > 1]
             ctx.check(not bad, 'hull', 'filter:hull:more-than-one',
                       f'clusters {bad[:6]} keep more than one member in hull mode (result {res.tolist()[:30]})', linkage=link, t=t)
